@@ -364,10 +364,11 @@ type codeBlock struct {
 	LastLine       int
 	labels         map[string]*gotoLabelDesc
 	firstGotoIndex int
+	dbgLocals      []int // positions in Proto.DbgLocals of the locals declared in this block
 }
 
 func newCodeBlock(localvars *varNamePool, blabel int, parent *codeBlock, pos ast.PositionHolder, firstGotoIndex int) *codeBlock {
-	bl := &codeBlock{localvars, blabel, parent, false, 0, 0, map[string]*gotoLabelDesc{}, firstGotoIndex}
+	bl := &codeBlock{localvars, blabel, parent, false, 0, 0, map[string]*gotoLabelDesc{}, firstGotoIndex, nil}
 	if pos != nil {
 		bl.LineStart = pos.Line()
 		bl.LastLine = pos.LastLine()
@@ -546,6 +547,7 @@ func (fc *funcContext) BlockLocalVarsCount() int {
 func (fc *funcContext) RegisterLocalVar(name string) int {
 	ret := fc.Block.LocalVars.Register(name)
 	fc.Proto.DbgLocals = append(fc.Proto.DbgLocals, &DbgLocalInfo{Name: name, StartPc: fc.Code.LastPC() + 1})
+	fc.Block.dbgLocals = append(fc.Block.dbgLocals, len(fc.Proto.DbgLocals)-1)
 	fc.SetRegTop(fc.RegTop() + 1)
 	return ret
 }
@@ -599,8 +601,10 @@ func (fc *funcContext) LeaveBlock() int {
 }
 
 func (fc *funcContext) EndScope() {
-	for _, vr := range fc.Block.LocalVars.List() {
-		fc.Proto.DbgLocals[vr.Index].EndPc = fc.Code.LastPC()
+	// DbgLocals is in declaration order over the whole function; a register index
+	// is not a position in it once an inner block has ended and its registers are reused
+	for _, i := range fc.Block.dbgLocals {
+		fc.Proto.DbgLocals[i].EndPc = fc.Code.LastPC()
 	}
 }
 
